@@ -6,7 +6,7 @@
     (2) MEANING: for every sequence of representations and EVERY wire form the RFC allows for
     them, that decoder returns the declarative meaning [sem] of the sequence. *)
 From Coq Require Import ZArith List Bool.
-From HV Require Import Prelude.Py Prelude.State Spec.DynTable Spec.SDecoder.
+From HV Require Import Prelude.Py Prelude.State Prelude.Utf8 Spec.DynTable Spec.SDecoder.
 From HV Require Import Model.Data Model.Decoder Model.Rel.
 From HV Require Import Proofs.Table Proofs.DecoderRefine Proofs.SpecDecoder Proofs.DecoderMeaning.
 Import ListNotations.
